@@ -80,6 +80,69 @@ def starved_of_file_descriptors(ctx):
         ctx.classes["bin/fdlimit/" + ("failed" if r["rc"] != 0 else "completed")] = ctx.classes.get("bin/fdlimit/" + ("failed" if r["rc"] != 0 else "completed"), 0) + 1
 
 
+def attribute_names(ctx):
+    """the statement quantifies over the requested attribute: the same 9 records under a dozen attribute names (what -m
+    and -c are given is a name chosen by the user), in memory and on disk, through obiuniq -m NAME then obidemerge -d NAME;
+    expected maps and counts are computed from the statement (sum of the counts per sequence and per value)"""
+    bindir = ctx.build_cmds(["obiuniq", "obidemerge"])
+    d = ctx.path("attrnames")
+    os.makedirs(d, exist_ok=True)
+    uniq, dem = os.path.join(bindir, "obiuniq"), os.path.join(bindir, "obidemerge")
+    recs = [("acgtacgtaa", "A", 2), ("acgtacgtaa", "B", 1), ("acgtacgtaa", "A", 3), ("ttgtacgtaa", "B", 4), ("ttgtacgtaa", None, 1),
+            ("ggggacgtaa", "C", 1), ("ggggacgtaa", "C", 1), ("ccccacgtaa", None, 5), ("acgtacgtaa", "C", 1)]
+    names = ["run", "marker", "experiment", "group", "replicate", "gene", "direction", "depth", "_x", "sample", "taxon", "location", "primer"]
+
+    def parse(out):
+        got = []
+        lines = out.decode().split("\n")
+        for a, b in zip(lines[0::2], lines[1::2]):
+            if a.startswith(">"):
+                j = a.find("{")
+                got.append((b, json.loads(a[j:a.rindex("}") + 1]) if j >= 0 else {}))
+        return got
+    jobs = []
+    for name in names:
+        with open(os.path.join(d, name + ".fa"), "w") as f:
+            for i, (q, v, c) in enumerate(recs):
+                ann = {"count": c}
+                if v is not None:
+                    ann[name] = v
+                f.write(">r%d %s\n%s\n" % (i, json.dumps(ann), q))
+        for mode in ([], ["--in-memory"]):
+            jobs.append({"name": name, "mode": mode,
+                         "argv": ["/bin/bash", "-c", "%s --no-progressbar %s -m %s %s.fa > %s.u%d.fa && %s --no-progressbar -d %s %s.u%d.fa"
+                                  % (uniq, " ".join(mode), name, name, name, len(mode), dem, name, name, len(mode))], "cwd": d})
+    res = ctx.run_many(jobs, timeout=300)
+    for j, r in zip(jobs, res):
+        name = j["name"]
+        cls = "bin/attribute-name/" + ("memory" if j["mode"] else "disk")
+        ctx.replayed += 1
+        what = "obiuniq %s -m %s | obidemerge -d %s on 9 records" % (" ".join(j["mode"]), name, name)
+        if r["timeout"] or r["rc"] != 0:
+            ctx.violation("C06.bin.attribute_name.exit_status", cls, "%s: exit status %s %s" % (what, r["rc"], r["err"][-300:]), {"name": name})
+            continue
+        want_maps = {}
+        for q, v, c in recs:
+            want_maps.setdefault(q, {})
+            want_maps[q][v if v is not None else "NA"] = want_maps[q].get(v if v is not None else "NA", 0) + c
+        try:
+            u = parse(open(os.path.join(d, "%s.u%d.fa" % (name, len(j["mode"]))), "rb").read())
+            got_maps = {q: a.get("merged_" + name) for q, a in u}
+            stray = sorted(k for q, a in u for k in a if k.startswith("merged_") and k != "merged_" + name)
+            dm = sorted((q, str(a.get(name, "NA")), int(a.get("count", 1))) for q, a in parse(r["out"]))
+        except Exception as ex:
+            ctx.violation("C06.bin.attribute_name.output", cls, "%s: output cannot be decoded: %s" % (what, ex), {"name": name})
+            continue
+        want_dm = sorted((q, v, c) for q, m in want_maps.items() for v, c in m.items())
+        if got_maps != want_maps or stray:
+            ctx.violation("C06.bin.attribute_name.merged_map", cls, "%s: merged_%s maps are %s (other merged_ slots: %s), expected %s"
+                          % (what, name, got_maps, stray, want_maps), {"name": name})
+        elif dm != want_dm:
+            ctx.violation("C06.bin.attribute_name.demerge", cls, "%s: demerged records (sequence, value, count) %s, expected %s" % (what, dm, want_dm), {"name": name})
+        else:
+            ctx.classes[cls] = ctx.classes.get(cls, 0) + 1
+
+
 def run_replay(ctx, name, cases, level, runs, procs=8, par=4, extra=(), timeout=2400):
     cf = ctx.path("cases_%s.ndjson" % name)
     rf = ctx.path("res_%s.ndjson" % name)
@@ -188,6 +251,7 @@ def main(ctx):
     bin_cases = vlib.sample(ctx.rng, multi, 1500 if thorough else 160)
     run_replay(ctx, "bin", bin_cases, "bin", 2 if thorough else 1, procs=1, par=16, extra=["inprocess=1"])
     starved_of_file_descriptors(ctx)
+    attribute_names(ctx)
     law_cases = vlib.sample(ctx.rng, [c for c in multi if c["opt"][1] == 1], 600 if thorough else 60)
     run_replay(ctx, "law", law_cases, "law", 1, procs=1, par=16, extra=["inprocess=1"])
     # the weighted descriptor: every (shape class, option set) through the binaries, and the two-pass runs
